@@ -219,6 +219,10 @@ def run(index, rep, tier):
         _stretch_rule(index, rep)
     with rep.section("R18.6"):
         _input_purity_rule(index, rep)
+    with rep.section("R18.7"):
+        rep.rule("R18.7", "zero is a number: periods, lengths, rates and counts in the simulators are tested against None, never by truthiness (a species branch of length 0 is a limit of 0, not 'no limit')")
+        rep.floor("R18.7", "numeric names in the simulators", 30, numeric_truthiness_rule(index, rep, "R18.7", SIM_MODULES[:3], exempt={
+            "dendropy.model.coalescent.discrete_time_to_coalescence:pop_size": "documented: a population size of 0 or None both mean 'time in population units'"}))
 
 
 def _distinct_labels_rule(index, rep):
